@@ -125,8 +125,11 @@ func c14R4(c *Ctx) {
 	}
 }
 
-func c14R5(c *Ctx) {
-	rule := c.R.Rule("R5", "uniform application: updateValidators mutates only its validators parameter; EndBlock passes p.NextValidatorSet and defers Reset(); in State.ExecBlock the EndBlock hook receives nextValSet (a copy of a copy of s.Validators) and is followed on every success path by nextValSet.IncrementAccum(1) and SetBlockAndValidators(..., valSet, nextValSet); ExecBlock is the only caller chain to EndBlock", 7)
+func c14R5(c *Ctx) { uniformApplicationRule(c, "R5") }
+
+// uniformApplicationRule is shared by C14-R5 and C02-R8 (LastValidators must stay the set that signed the block).
+func uniformApplicationRule(c *Ctx, id string) {
+	rule := c.R.Rule(id, "uniform application: updateValidators mutates only its validators parameter; EndBlock passes p.NextValidatorSet and defers Reset(); in State.ExecBlock the EndBlock hook receives nextValSet (a copy of a copy of s.Validators) and is followed on every success path by nextValSet.IncrementAccum(1) and SetBlockAndValidators(..., valSet, nextValSet); ExecBlock is the only caller chain to EndBlock", 7)
 	if f := c.Anchor(rule, aopT+".updateValidators"); f != nil {
 		ok := true
 		n := 0
